@@ -19,7 +19,7 @@ func (ip *Interp) draw(w int, kind string) *Term {
 }
 
 func (ip *Interp) strArg(v Value) string {
-	s, ok := v.(Str).concrete()
+	s, ok := ip.concStr(v.(Str)).concrete()
 	if !ok {
 		ip.oom("symbolic string passed to harness API")
 	}
@@ -117,7 +117,7 @@ func (ip *Interp) registerHarnessAPI() {
 		return nil
 	})
 	h("verifObserveStr", func(ip *Interp, fr *frame, args []Value) Value {
-		s := args[1].(Str)
+		s := ip.concStr(args[1].(Str))
 		ip.path.Observes = append(ip.path.Observes, Obs{Label: ip.strArg(args[0]), Kind: "str", Terms: append([]*Term(nil), s.B...)})
 		return nil
 	})
